@@ -22,7 +22,8 @@ RULE = ("stream groups: ASA configurations rendered from a description (0..5 `na
         "through >= 1 group-object and resolves >= 1 alias; distinct by (depth, #aliases resolved, #members).  "
         "stream ports: every operator x bounds {0,1,2,3,79,80,81,65533..65537} x tcp/udp, every named service of both tables under every "
         "operator and as either range bound, blanks variants, cross-table names, malformed specs; thorough: full sweep eq/neq/lt/gt "
-        "over 1..65535.  Port lists are compared as maximal +1 runs (injective).  non-trivial = accepted spec; distinct by (operator, argument).")
+        "over 1..65535.  Port lists are compared as maximal +1 runs (injective) with the model AND, for every structured case, with the ports the "
+        "spec denotes according to an independent reading in the harness (_expect).  non-trivial = accepted spec; distinct by (operator, argument).")
 EXHAUSTIVE = {"quick": False, "thorough": True}
 TRUSTED = [
     "Coq 8.16.1 kernel incl. vm_compute (no native_compute)",
@@ -54,7 +55,7 @@ def _ip(rng):
 
 
 def gen_groups(rng, tier, escalate):
-    n = 2400 if (tier == "thorough" or escalate) else 700
+    n = 6000 if (tier == "thorough" or escalate) else 700
     cases = []
     for i in range(n):
         malformed = i % 6 == 5
@@ -250,18 +251,20 @@ def lit_groups(c, o):
 
 
 def nontrivial_groups(c, o):
-    if "parse_error" in o or c["malformed"]:
+    """a group that expands through >= 1 group-object while >= 1 alias is resolved somewhere in its expansion"""
+    if "parse_error" in o or c["malformed"] or o.get("names") is None:
         return None
     _, names, groups, _ = _render(c)
-    alias = {n for _, n in names}
+    alias_addr = {v for _, v in o["names"]}
     best = None
     for (g, ln, mem), p in zip(groups, o["per"]):
         if p[1] is None:
             continue
         ng = sum(1 for m in mem if m[0] == "group")
-        na = sum(1 for m in mem if m[0] in ("host", "net") and m[1] in alias)
-        if ng >= 1 and (na >= 1 or any(True for _ in alias)):
-            best = (c["maxrank"], ng, na, len(p[1]))
+        na = sum(1 for s in p[1] if s.split("/")[0] in alias_addr)
+        if ng >= 1 and na >= 1:
+            key = (c["maxrank"], ng, na, len(p[1]))
+            best = key if best is None or key > best else best
     return best
 
 
@@ -285,40 +288,68 @@ def _spec(op, a, b=None, sep=" ", lead="", trail=""):
     return lead + core + trail
 
 
+def _expect(tab, op, a, b=None):
+    """the ports a structured spec DENOTES (the property's own reading, independent of the implementation):
+    runs of the denoted subset of 1..65535, or "raise" when the bounds are invalid / the name is unknown"""
+    def val(x):
+        return x if isinstance(x, int) else tab.get(x)
+    v = val(a)
+    if v is None:
+        return "raise"
+    if op in ("eq", "bare"):
+        return [[v, v]] if 1 <= v <= 65535 else "raise"
+    if op == "neq":
+        return [r for r in ([1, v - 1], [v + 1, 65535]) if r[0] <= r[1]] if 1 <= v <= 65535 else "raise"
+    if op == "lt":
+        return [[1, v - 1]] if 2 <= v <= 65535 else "raise"
+    if op == "gt":
+        return [[v + 1, 65535]] if 1 <= v <= 65534 else "raise"
+    w = val(b)
+    if w is None:
+        return "raise"
+    return [[v, w]] if 1 <= v <= w <= 65535 else "raise"
+
+
 def gen_ports(rng, tier, escalate):
     big = tier == "thorough" or escalate
     tabs = gen_c20.tables()
     cases = []
 
-    def add(proto, spec, syntax="asa", key=None):
-        cases.append({"proto": proto, "spec": spec, "syntax": syntax, "key": key})
+    def add(proto, spec, syntax="asa", sem=None):
+        c = {"proto": proto, "spec": spec, "syntax": syntax, "key": None, "expect": None}
+        if sem is not None:
+            c["key"] = [sem[0], sem[1], sem[2]]
+            c["expect"] = _expect(tabs[proto], *sem)
+        cases.append(c)
 
     for proto in ("tcp", "udp"):
         for op in OPS:
             if op == "range":
                 for a in PB:
                     for b in PB:
-                        add(proto, _spec(op, a, b), key=(op, a, b))
+                        add(proto, _spec(op, a, b), sem=(op, a, b))
             else:
                 for a in PB:
-                    add(proto, _spec(op, a), key=(op, a))
+                    add(proto, _spec(op, a), sem=(op, a, None))
         # every named service under every operator, and as a range bound
         for name, val in tabs[proto].items():
             for op in OPS:
                 if op == "range":
-                    add(proto, _spec(op, name, 65535), key=(op, name, 65535))
-                    add(proto, _spec(op, 1, name), key=(op, 1, name))
+                    add(proto, _spec(op, name, 65535), sem=(op, name, 65535))
+                    add(proto, _spec(op, 1, name), sem=(op, 1, name))
                     other = rng.choice(list(tabs[proto]))
-                    add(proto, _spec(op, name, other), key=(op, name, other))
+                    add(proto, _spec(op, name, other), sem=(op, name, other))
+                    add(proto, _spec(op, other, name), sem=(op, other, name))
                 else:
-                    add(proto, _spec(op, name), key=(op, name))
-        # names of the other table
+                    add(proto, _spec(op, name), sem=(op, name, None))
+        # names of the other table are unknown here
         other = "udp" if proto == "tcp" else "tcp"
         for name in tabs[other]:
             if name not in tabs[proto]:
-                add(proto, _spec(rng.choice(OPS[:4]), name))
+                op = rng.choice(OPS[:4])
+                add(proto, _spec(op, name), sem=(op, name, None))
     # random numeric arguments and blanks variants
-    for _ in range(4000 if big else 900):
+    for _ in range(12000 if big else 900):
         proto = rng.choice(["tcp", "udp"])
         op = rng.choice(OPS)
         a = rng.choice([rng.randint(1, 65535), rng.randint(1, 1100), rng.choice(PB)])
@@ -326,7 +357,9 @@ def gen_ports(rng, tier, escalate):
         sep = rng.choice([" ", " ", " ", "  ", " \t", "\t", "   "])
         lead = rng.choice(["", "", " ", "\t ", "\n"])
         trail = rng.choice(["", "", " ", "  \t", "\r\n"])
-        add(proto, _spec(op, a, b, sep, lead, trail), key=(op, a, b if op == "range" else None))
+        # a separator that starts with a blank keeps the operator recognisable; a bare TAB does not (no expectation then)
+        sem = (op, a, b if op == "range" else None) if (sep[0] == " " or op == "bare") else None
+        add(proto, _spec(op, a, b, sep, lead, trail), sem=sem)
     # malformed
     BAD = ["", " ", "eq", "eq ", "neq", "lt", "gt", "range", "range 5", "range 5 ", "range a b", "range 1 b", "eq x", "lt x", "gt x", "neq x",
            "foo bar", "eq 80 90", "range 1 5 9", "x range 1 5", "eq -1", "eq +80", "eq 080", "lt 0", "gt -1", "1 2", "range1 5", "xeq 80",
@@ -339,11 +372,12 @@ def gen_ports(rng, tier, escalate):
         add(proto, "eq 80", syntax)
     if big:
         for p in range(1, 65536):
-            add("tcp", "eq %d" % p, key=("eq", p))
-        for p in range(1, 65536, 16):
-            add("udp", "neq %d" % (p + rng.randint(0, 15)), key=("neq", p))
-            add("tcp", "lt %d" % (p + rng.randint(0, 15)), key=("lt", p))
-            add("udp", "gt %d" % (p + rng.randint(0, 15)), key=("gt", p))
+            add("tcp", "eq %d" % p, sem=("eq", p, None))
+        for p in range(1, 65536, 4):
+            q = p + rng.randint(0, 3)
+            add("udp", "neq %d" % q, sem=("neq", q, None))
+            add("tcp", "lt %d" % q, sem=("lt", q, None))
+            add("udp", "gt %d" % q, sem=("gt", q, None))
     return cases
 
 
@@ -368,9 +402,14 @@ def run_ports(case):
     return _runs(pl)
 
 
+def _runs_lit(rs):
+    return common.listlit(_zz(r) for r in rs)
+
+
 def lit_ports(c, o):
-    return "(%s, %s, %s, %s)" % (_s(c["proto"]), _s(c["spec"]), _s(c["syntax"]),
-                                 common.optlit(o, lambda rs: common.listlit(_zz(r) for r in rs)))
+    e = c.get("expect")
+    exp = "None" if e is None else ("(Some None)" if e == "raise" else "(Some (Some %s))" % _runs_lit(e))
+    return "(%s, %s, %s, %s, %s)" % (_s(c["proto"]), _s(c["spec"]), _s(c["syntax"]), common.optlit(o, _runs_lit), exp)
 
 
 def nontrivial_ports(c, o):
@@ -381,7 +420,7 @@ def nontrivial_ports(c, o):
 
 def describe_ports(c, o):
     return {"protocol": c["proto"], "port_spec": c["spec"], "syntax": c["syntax"],
-            "impl_port_list_as_runs": "raised" if o is None else o[:6]}
+            "impl_port_list_as_runs": "raised" if o is None else o[:6], "denoted_ports_as_runs": c.get("expect")}
 
 
 PRE = ("From Coq Require Import NArith ZArith List. Import ListNotations. "
@@ -392,7 +431,7 @@ STREAMS = [
            rule="rendered ASA configs: alias tables x group DAGs depth 0..4, redefinitions, cycles/dangling/unparsable members"),
     Stream("ports", gen_ports, run_ports, lit_ports, preamble=PRE, ctype="case20p", agree="agree20p", show="model20p",
            nontrivial=nontrivial_ports, describe=describe_ports, shard=150,
-           rule="operators x boundary ports x all named services x blanks variants + malformed; thorough: full eq sweep, 1/16 sweeps of neq/lt/gt"),
+           rule="operators x boundary ports x all named services x blanks variants + malformed; thorough: full eq sweep, 1/4 sweeps of neq/lt/gt"),
 ]
 
 TECHNIQUE = ("Coq proof (unbounded: all group graphs with a rank function, all alias tables, all ports and operators) about hand-written Gallina models of "
